@@ -54,9 +54,10 @@ def make_cases(ctx, cid, en):
 
 def gen_cases(ctx):
     g = enumgen.EnumGen(ctx.rng)
-    ens = [g.bits("wf", f) for f in SHAPED]
+    ens = [en for en, _ in enumgen.load_corpus(PROP)]
+    ens += [g.bits("wf", f) for f in SHAPED]
     ens += [g.bits("odd") for _ in range(3)]
-    n = ctx.n(40, 500)
+    n = ctx.n(40, 500) + len(enumgen.load_corpus(PROP))
     while len(ens) < n:
         ens.append(g.bits("wf" if ctx.rng.random() < 0.93 else "odd",
                           ctx.rng.choice(SHAPED) if ctx.rng.random() < 0.3 else None))
@@ -85,7 +86,11 @@ def run_cases(ctx, pairs, name="mod"):
             im["compile"] = "ok" if r["compile"] == "ok" else "error"
             obs = dict(r["obs"])
             d = obs.pop("decl", None)
-            if r["compile"] == "ok":
+            if r["compile"] == "ok" and ("panic" in obs or (d is None and not obs)):
+                # a recovered panic, or the oracle process died (e.g. unbounded recursion in String()); when more than a
+                # handful of cases kill the process the batch runner gives up and the rest stay unobserved
+                im["panic"] = obs.get("panic", "no observation: the oracle process kept dying")
+            elif r["compile"] == "ok":
                 want = ",".join("%s=%d" % (n, v) for n, v in main["decl"])
                 if d != want:
                     raise core.InfraError("harness evaluation of the const blocks disagrees with the compiler: %s vs %s" % (want, d))
@@ -133,6 +138,7 @@ def run(ctx, obl):
                 if c["id"] == cid:
                     v.setdefault("detail", c.get("detail"))
                     v.setdefault("sources", c.get("files"))
+                    v.setdefault("enum", c["en"])
     res.extra["value_flag_pairs_executed"] = npairs
     res.rule = ("bit-flag enums generated from the grammar (1-8 single-bit flags, contiguous `1 << iota` runs or scattered decimal/hex/shift "
                 "literals in any order, optional zero constant, 0-3 declared composites `A | B`, all 10 integer kinds, prefixed or plain names); "
@@ -146,18 +152,26 @@ def run(ctx, obl):
 
 
 def replay(ctx, payload):
-    from vlib import sexp
+    """re-run the recorded bit-flag enum (both the emitted file and the patched copy) and print the three line sets"""
     core.lean_build(LEAN_MODULES + [DRIVER])
-    case = payload.get("case")
-    print(case)
-    if payload.get("sources"):
-        for fn, src in payload["sources"].items():
-            print("---- %s\n%s" % (fn, src))
-    model = core.model_run(ctx, [case])
-    cid = sexp.parse(case)[1]
-    m = model.get(cid, {})
-    print("impl (recorded):", payload.get("impl"))
-    print("model:", m.get("model"))
-    print("spec :", m.get("spec"))
-    print("region:", m.get("region"))
-    return 0 if all((payload.get("impl") or {}).get(k) == v for k, v in (m.get("spec") or {}).items()) else 1
+    en = payload.get("enum")
+    if not en:
+        print(payload.get("case") or payload)
+        return 0
+    pair = make_cases(ctx, "replay", en)
+    for fn, src in pair[0]["files"].items():
+        print("---- %s\n%s" % (fn, src))
+    cases, impl, model = run_cases(ctx, [pair])
+    rc = 0
+    for c in cases:
+        m = model[c["id"]]
+        print(c["sexp"])
+        print("cmd   :", c["cmd"], c.get("detail", {}).get("compile", ""))
+        print("region:", m["region"])
+        print("impl  :", impl[c["id"]])
+        print("model :", m["model"])
+        print("spec  :", m["spec"])
+        ref = m["model"] if m["region"].startswith("F_") else m["spec"]      # a finding region is expected to differ from spec
+        if m["region"] != "Out" and any(impl[c["id"]].get(k) != v for k, v in ref.items()):
+            rc = 1
+    return rc
